@@ -136,6 +136,10 @@ func (ts *treeStorage) GetRoster(id RosterID) *Roster {
 	defer ts.Unlock()
 
 	for _, tree := range ts.trees {
+		if tree == nil || tree.Roster == nil {
+			// requested but not yet received
+			continue
+		}
 		if tree.Roster.ID.Equal(id) {
 			return tree.Roster
 		}
